@@ -22,6 +22,10 @@ mod mac;
 
 pub mod v5;
 
+#[cfg(pendulum_project_ntpd_rs_verif)]
+#[path = "/verif/hooks/ntp_proto/packet.rs"]
+pub mod verif_probe;
+
 pub use crypto::{
     AesSivCmac256, AesSivCmac512, Cipher, CipherHolder, CipherProvider, DecryptError,
     EncryptResult, NoCipher,
